@@ -308,11 +308,10 @@ func c17Words(c *Ctx, sample bool) {
 	size := 4
 	if r.Chance(4, 5) {
 		size = r.Range(1, 8)
+		if r.Chance(1, 20) {
+			size = []int{0, -1}[r.Intn(2)]
+		}
 		args = append(args, fmt.Sprintf("--size=%d", size))
-	}
-	if r.Chance(1, 20) {
-		size = 0
-		args = append(args, "--size=0")
 	}
 	sepWord := "hyphen"
 	if r.Chance(4, 5) {
